@@ -2,11 +2,13 @@ package dtls
 
 //symgo:pkg github.com/pion/dtls/v3
 //symgo:param NDGRAM quick=20 thorough=30
+//symgo:stub crypto/rand.Reader is a fake returning fresh symbolic bytes; nextConn is a fake that accepts every write
 //symgo:stub CipherSuite / RecordProtection13 are harness fakes returning an arbitrary verdict and (for an authenticated peer) the record bytes as plaintext, so malformed-but-authentic content reaches the content parsers
 //symgo:outside deadlocks across goroutines, heap growth measured at run time; datagrams longer than NDGRAM bytes
 
 import (
 	"context"
+	"crypto/rand"
 	"errors"
 	"hash"
 	"net"
@@ -63,6 +65,26 @@ func (p *zzProt8) Open(h recordlayer.UnifiedHeader, seq uint64, enc []byte) (rec
 	return recordlayer.InnerPlaintext{Content: enc[:len(enc)-1], RealType: protocol.ContentType(enc[len(enc)-1])}, nil
 }
 
+type zzRand8 struct{}
+
+func (zzRand8) Read(p []byte) (int, error) {
+	copy(p, zzsymBytes("rand", len(p)))
+	return len(p), nil
+}
+
+type zzNet8 struct{ writes int }
+
+func (n *zzNet8) ReadFromContext(context.Context, []byte) (int, net.Addr, error) {
+	return 0, nil, zzErrAuth8
+}
+func (n *zzNet8) WriteToContext(_ context.Context, b []byte, _ net.Addr) (int, error) {
+	n.writes++
+	return len(b), nil
+}
+func (n *zzNet8) Close() error         { return nil }
+func (n *zzNet8) LocalAddr() net.Addr  { return nil }
+func (n *zzNet8) Conn() net.PacketConn { return nil }
+
 type zzLog8 struct{}
 
 func (zzLog8) Trace(string)          {}
@@ -77,8 +99,11 @@ func (zzLog8) Error(string)          {}
 func (zzLog8) Errorf(string, ...any) {}
 
 func zzConn8(suite *zzSuite8, isClient bool) *Conn {
+	rand.Reader = zzRand8{}
 	c := &Conn{
 		state:                  dtlsstate.NewActive(isClient),
+		nextConn:               &zzNet8{},
+		paddingLengthGenerator: func(uint) uint { return 0 },
 		fragmentBuffer:         dtlsfragmentbuffer.New(),
 		handshakeCache:         dtlsflight.NewCache(),
 		decrypted:              make(chan any, 4),
